@@ -128,11 +128,20 @@ KF_C02(c) ==
 \* beyond TLC's integers)
 KF_C11(c) == IF P_C11x(c, FALSE) THEN "emoji-presentation-sequence" ELSE ""
 
+\* C12's "pre-cont-tag" seen through C09's clause on the continuation flag (same class: only the strict
+\* clause fails, exactly as the recorded algorithm predicts)
+KF_C09(c) ==
+  IF "pw" \in DOMAIN c.meta /\ \A i \in 1..Len(c.runs) :
+       LET run == c.runs[i] IN
+       IsOk(run) => LET p == C12Parts(c, run) IN p.tagsWeak /\ (p.tagsStrict \/ ModelAgrees(c, run))
+  THEN "pre-cont-tag" ELSE ""
+
 KFClass(prop, c) ==
   CASE prop = "C12" -> KF_C12(c)
     [] prop = "C18" -> KF_C18(c)
     [] prop = "C03" -> KF_C03(c)
     [] prop = "C02" -> KF_C02(c)
+    [] prop = "C09" -> KF_C09(c)
     [] prop = "C11" -> KF_C11(c)
     [] prop \in {"C05", "C06"} -> KF_Table(c)
     [] prop = "C08" -> KF_C08(c)
